@@ -12,6 +12,8 @@ RUNS = {"quick": 3000, "thorough": 150000}
 FAM = {
     "K.meth": {"param": "self", "local": "x", "inst": [("k1", "K"), ("k2", "K"), ("s1", "Sub")],
                "cls_paths": ["K.meth", "Sub.meth"], "attr": "meth"},
+    "K.run": {"param": "self", "local": "x", "inst": [("k1", "K"), ("k2", "K"), ("s1", "Sub")],
+              "cls_paths": ["K.run", "Sub.run"], "attr": "run"},
     "Sub.other": {"param": "self", "local": "y", "inst": [("s1", "Sub")], "cls_paths": ["Sub.other"], "attr": "other"},
     "E.meth": {"param": "this", "local": "x", "inst": [("e1", "E"), ("e2", "E"), ("e3", "E")],
                "cls_paths": ["E.meth"], "attr": "meth"},
@@ -25,7 +27,34 @@ FAM = {
 PLAIN = {"meth": "x", "other": "y"}
 
 
+def gen_failing_nested(rng):
+    """An object-bound call path (k1.run > helper > v) next to a total probe on the method whose
+    subscriber fails when a call of the method is wound up: afterwards the bound probe still
+    reports only what happens under calls on its own receiver."""
+    name, cls = rng.choice([("k1", "K"), ("k2", "K"), ("s1", "Sub")])
+    lv0 = {"fn": "K.run", "caps": [], "sibs": [], "recv": name, "recv_cls": cls, "recv_param": "self",
+           "recv_path": f"{name}.run"}
+    p0 = {"levels": [lv0, {"fn": "helper", "caps": [], "sibs": []}], "focus": {"var": "v", "as": "v"}}
+    t0 = {"levels": [{"fn": "K.run", "caps": [{"var": "x", "as": "x"}], "sibs": [], "recv_path": "K.run"}],
+          "focus": None, "mode": "total"}
+    ops = [{"op": "mk", "id": "p0", "sels": [p0], "inv": "C13.receiver", "style": 0},
+           {"op": "mk", "id": "t0", "sels": [t0], "raw": True, "nojudge": True},
+           {"op": "enter", "id": "p0"}, {"op": "enter", "id": "t0"},
+           {"op": "stage", "id": "t0", "kind": "whole", "cap": None, "raises": rng.choice([1, 1, 2, 3])}]
+    for _ in range(rng.randint(4, 9)):
+        if rng.random() < 0.3:
+            ops.append({"op": "call", "fn": "helper", "nargs": 1, "tape": [], "faults": {}})
+        else:
+            who = rng.choice(["k1", "k2", "s1"])
+            ops.append({"op": "call", "fn": f"{who}.run", "nargs": 1, "tape": [], "faults": {}})
+    ops += [{"op": "exit", "id": "t0"}, {"op": "call", "fn": "helper", "nargs": 1, "tape": [], "faults": {}},
+            {"op": "exit", "id": "p0"}]
+    return {"prog": "recv", "ops": ops, "activation_inv": "C13.activation", "exact_failures": True}
+
+
 def gen(rng, tier, quarantine=()):
+    if "no-failing-subscriber" not in quarantine and rng.random() < 0.06:
+        return gen_failing_nested(rng)
     fams = [f for f in FAM if f"no:{f}" not in quarantine]
     if "no-unhashable" in quarantine:
         fams = [f for f in fams if f != "N.meth"]
